@@ -22,9 +22,15 @@
     class or an exception); every invocation costs `Cfg.cost` energy units (the harness' stub agents
     consume exactly that from the shared `ATP_Store` through its plain `consume` path).
 
-  Not modelled: console output, `on_block`/`on_permit` callbacks (None in the harness), the results
-  log, processing time, `total_requests/blocked/permitted` statistics, payload/confidence/metadata of
-  the token, concurrent callers.
+  * the tail of `run` (section "callbacks and statistics"): `_total_requests`, `_total_blocked`,
+    `_total_permitted`, the length of the results log (cap 1000), the `on_block` / `on_permit` callbacks
+    (not set / returns / raises) and what the caller finally gets (`deliver`).  The callbacks come AFTER the
+    breaker update and the cache store and are not called for CIRCUIT_OPEN, cache hits and agent
+    exceptions, so they cannot influence `State`; a raising callback only takes the reply away from the
+    caller (the result is logged, cached and was handed to the callback).
+
+  Not modelled: console output, processing time, payload/confidence/metadata of the token, callbacks that
+  re-enter the loop or mutate the result they are given, thread interleavings finer than agent calls.
 -/
 namespace Operon.Cffl
 
@@ -178,11 +184,25 @@ structure Prompt where
   enc : Bool := true
   deriving Repr, DecidableEq
 
-/-- What an agent does when consulted. -/
+/-- What an agent does when consulted.
+    `exc`  : raises an `Exception` that can be rendered as text (the handler of `run` formats it into the
+             block reason of the ERROR reply);
+    `excU` : raises an `Exception` whose `__str__` raises ("unprintable"): the handler records the failure
+             FIRST and then fails while formatting `f"Agent error: {e}"` — `run` raises, nothing comes back;
+    `excB` : raises a `BaseException` that is not an `Exception` (KeyboardInterrupt, SystemExit, …): the
+             `except Exception` handler does not see it — `run` raises, no failure is recorded. -/
 inductive Resp where
   | exc
   | ret (c : Cls)
+  | excU
+  | excB
   deriving Repr, DecidableEq
+
+/-- the agent raised something the `except Exception` handler of `run` catches -/
+def Resp.caught : Resp → Bool
+  | .exc => true
+  | .excU => true
+  | _ => false
 
 /-! ### circuit breaker -/
 
@@ -277,6 +297,7 @@ inductive Kind where
   | gated (e : BEvent)     -- both agents answered, gate applied
   | raised                 -- `run` itself raised (unencodable prompt)
   | admin                  -- not a request (clock advance, reset, clear)
+  | aborted                -- an agent raised a BaseException that `run` does not catch: it passes through
   deriving Repr, DecidableEq
 
 def Kind.isFailure : Kind → Bool
@@ -299,15 +320,21 @@ def gateResult (H : Hashes) (g : Gate) (p : Prompt) (z y : Cls) : Result :=
   let o := applyGate g z y
   ⟨o.success, o.action, o.blocked, if o.token then some ⟨H.sha p.id, .assessor⟩ else none, false⟩
 
-/-- `run` from "Create signal" on: both agents, gate, breaker update, caching. -/
+/-- `run` from "Create signal" on: both agents, gate, breaker update, caching.
+    The `except Exception` handler calls `_record_failure()` before anything else, so an exception that cannot
+    even be rendered (`excU`) is counted although the handler itself then fails (no reply). -/
 def consult (cfg : Cfg) (H : Hashes) (s : State) (p : Prompt) (zr yr : Resp) : State × Out :=
   let s1 := callExecutor cfg s
   match zr with
   | .exc => ({ s1 with br := recordFailure cfg s1.now s1.br }, ⟨.agentExc, some errorResult⟩)
+  | .excU => ({ s1 with br := recordFailure cfg s1.now s1.br }, ⟨.agentExc, none⟩)
+  | .excB => (s1, ⟨.aborted, none⟩)
   | .ret z =>
     let s2 := callAssessor cfg s1
     match yr with
     | .exc => ({ s2 with br := recordFailure cfg s2.now s2.br }, ⟨.agentExc, some errorResult⟩)
+    | .excU => ({ s2 with br := recordFailure cfg s2.now s2.br }, ⟨.agentExc, none⟩)
+    | .excB => (s2, ⟨.aborted, none⟩)
     | .ret y =>
       if p.enc then
         let r := gateResult H cfg.gate p z y
@@ -403,9 +430,16 @@ def lookup (cfg : Cfg) (H : Hashes) (s : State) (p : Prompt) : State × Option O
     | (b1, true) => lookupCache cfg H { s with br := b1 } p
   else lookupCache cfg H s p
 
-/-- the `except` handler of the agent calls -/
+/-- the `except` handler of the agent calls (the exception can be rendered) -/
 def agentRaised (cfg : Cfg) (s : State) : State × Out :=
   ({ s with br := recordFailure cfg s.now s.br }, ⟨.agentExc, some errorResult⟩)
+
+/-- the `except` handler when the exception cannot be rendered: failure recorded first, then the handler raises -/
+def agentRaisedU (cfg : Cfg) (s : State) : State × Out :=
+  ({ s with br := recordFailure cfg s.now s.br }, ⟨.agentExc, none⟩)
+
+/-- a `BaseException` of an agent passes through `run` -/
+def agentAborted (s : State) : State × Out := (s, ⟨.aborted, none⟩)
 
 /-- `run` from "Apply gate logic" on, for the request with prompt `p` whose agents answered `z` and `y`:
     gate, breaker update, cache store — all against the state the loop is in NOW. -/
@@ -424,6 +458,8 @@ inductive PhaseOp where
   | execCall                            -- some pending request consults the executor
   | assessCall                          -- some pending request consults the assessor
   | agentRaised                         -- the agent a pending request consulted raised
+  | agentRaisedU                        -- … raised an exception that cannot be rendered
+  | agentAborted                        -- … raised a BaseException
   | finish (p : Prompt) (z y : Cls)     -- the pending request for `p` got the verdicts `z`, `y`
   | adv (d : Nat)
   | resetcb
@@ -441,6 +477,8 @@ def phaseStep (cfg : Cfg) (H : Hashes) (s : State) : PhaseOp → State × Option
   | .execCall => (callExecutor cfg s, none)
   | .assessCall => (callAssessor cfg s, none)
   | .agentRaised => ((agentRaised cfg s).1, some (agentRaised cfg s).2)
+  | .agentRaisedU => ((agentRaisedU cfg s).1, some (agentRaisedU cfg s).2)
+  | .agentAborted => ((agentAborted s).1, some (agentAborted s).2)
   | .finish p z y => ((finish cfg H s p z y).1, some (finish cfg H s p z y).2)
   | .adv d => ({ s with now := s.now + d }, none)
   | .resetcb => ({ s with br := resetBreaker s.br }, none)
@@ -460,7 +498,11 @@ def phasesOfRun (cfg : Cfg) (H : Hashes) (s : State) (p : Prompt) (zr yr : Resp)
   | none =>
     match zr, yr with
     | .exc, _ => [.lookup p, .execCall, .agentRaised]
+    | .excU, _ => [.lookup p, .execCall, .agentRaisedU]
+    | .excB, _ => [.lookup p, .execCall, .agentAborted]
     | .ret _, .exc => [.lookup p, .execCall, .assessCall, .agentRaised]
+    | .ret _, .excU => [.lookup p, .execCall, .assessCall, .agentRaisedU]
+    | .ret _, .excB => [.lookup p, .execCall, .assessCall, .agentAborted]
     | .ret z, .ret y => [.lookup p, .execCall, .assessCall, .finish p z y]
 
 /-! ### histories of a loop whose configuration attributes are re-assigned
@@ -490,6 +532,70 @@ def execR (H : Hashes) : Cfg → State → List ROp → State × List RObs
     (t.1, ⟨cfg, o, r.2⟩ :: t.2)
 
 def idHashes : Hashes := ⟨id, id⟩
+
+/-! ### callbacks and statistics — the tail of `run`
+
+  After the breaker update and the cache store `run` logs the result (`_record_result`), bumps `_total_blocked`
+  or `_total_permitted` and calls `on_block(result)` / `on_permit(result)` when set.  CIRCUIT_OPEN replies and the
+  ERROR reply of the exception handler are only logged; a cache hit is neither logged nor counted; `_total_requests`
+  is bumped on entry of every `run`.  None of this reads or writes the modelled `State`. -/
+
+/-- an `on_block` / `on_permit` attribute: not set (`None`), a callable that returns, a callable that raises -/
+inductive Hook where
+  | unset | ok | raises
+  deriving Repr, DecidableEq
+
+structure Hooks where
+  onBlock : Hook := .unset
+  onPermit : Hook := .unset
+  deriving Repr, DecidableEq
+
+/-- `_total_requests`, `_total_blocked`, `_total_permitted`, `len(_results_log)`, number of callback invocations -/
+structure Tally where
+  requests : Nat := 0
+  blocked : Nat := 0
+  permitted : Nat := 0
+  logged : Nat := 0
+  blockHookCalls : Nat := 0
+  permitHookCalls : Nat := 0
+  deriving Repr, DecidableEq
+
+def logCap : Nat := 1000
+
+/-- what the caller of `run` gets -/
+inductive Delivery where
+  | reply (r : Result)
+  | hookRaised (r : Result)   -- the result was produced, logged, cached and handed to the callback — which raised
+  | nothing                   -- `run` raised before a result existed
+  deriving Repr, DecidableEq
+
+/-- the result a request produced, if the caller (`reply`) or a callback (`hookRaised`) got to see it -/
+def Delivery.seen : Delivery → Option Result
+  | .reply r => some r
+  | .hookRaised r => some r
+  | .nothing => none
+
+def logOne (t : Tally) : Tally := { t with requests := t.requests + 1, logged := min logCap (t.logged + 1) }
+
+/-- the tail of `run` for a request handled as `o` -/
+def deliver (hk : Hooks) (t : Tally) (o : Out) : Tally × Delivery :=
+  match o.kind, o.result with
+  | .admin, _ => (t, .nothing)
+  | .gated _, some r =>
+    let t1 := logOne t
+    if r.blocked then
+      match hk.onBlock with
+      | .unset => ({ t1 with blocked := t1.blocked + 1 }, .reply r)
+      | .ok => ({ t1 with blocked := t1.blocked + 1, blockHookCalls := t1.blockHookCalls + 1 }, .reply r)
+      | .raises => ({ t1 with blocked := t1.blocked + 1, blockHookCalls := t1.blockHookCalls + 1 }, .hookRaised r)
+    else
+      match hk.onPermit with
+      | .unset => ({ t1 with permitted := t1.permitted + 1 }, .reply r)
+      | .ok => ({ t1 with permitted := t1.permitted + 1, permitHookCalls := t1.permitHookCalls + 1 }, .reply r)
+      | .raises => ({ t1 with permitted := t1.permitted + 1, permitHookCalls := t1.permitHookCalls + 1 }, .hookRaised r)
+  | .cacheHit, some r => ({ t with requests := t.requests + 1 }, .reply r)
+  | _, some r => (logOne t, .reply r)          -- CIRCUIT_OPEN, ERROR after an agent exception: logged only
+  | _, none => ({ t with requests := t.requests + 1 }, .nothing)
 
 /-- What the source translator (harness/vf/extract/py2lean_breaker.py) emits for a method that left its subset:
     a default value, so that the agreement theorem of that method fails. -/
